@@ -685,9 +685,24 @@ def scope_wf(case):
         return False
 
 
+class SitesMissing(Exception):
+    """the regenerated skeleton no longer has call sites the harness instruments (the source was restructured)"""
+
+    def __init__(self, labels):
+        Exception.__init__(self, ', '.join(labels))
+        self.labels = sorted(set(labels))
+
+
+def need(sites, names):
+    missing = [n for n in names if n not in sites]
+    if missing:
+        raise SitesMissing(missing)
+
+
 def scope_model_line(case, obs, sites):
-    """the `exec` query whose oracle is what the real run did"""
+    """the `exec` query whose oracle is what the real run did (raises SitesMissing when the skeleton lacks a site)"""
     entry, labels, taken, _ = SCOPES[case['scenario']]
+    need(sites, [labels[v[0]] for v in obs['visits']])
     raises, seen = [], {}
     for label, _d, bad in obs['visits']:
         sid = sites[labels[label]]
@@ -699,14 +714,17 @@ def scope_model_line(case, obs, sites):
     iters = []
     nfin = sum(1 for v in obs['visits'] if v[0].startswith('fin'))
     if case['scenario'] in ('prepare_closer', 'with_prepare'):
+        need(sites, ['prepare.closer|if|1', FIN_WHILE])
         if int(case.get('ncb', 0)) > 0:
             takes += [[sites['prepare.closer|if|1'], 0]]
         iters.append([sites[FIN_WHILE], 0, nfin])
     if case['scenario'] == 'explicit_excview':
+        need(sites, ['hide_attrs|for|1', 'hide_attrs|for|2', 'ViewMethodsMixin.invoke_exception_view|except Exception|1'])
         iters += [[sites['hide_attrs|for|1'], 0, 3], [sites['hide_attrs|for|2'], 0, 3]]
         if obs['raised']:
             takes += [[sites['ViewMethodsMixin.invoke_exception_view|except Exception|1'], 0]]
     if case['scenario'] == 'with_configurator' and not any(v[0] == 'body' and v[2] for v in obs['visits']):
+        need(sites, ['Configurator.__exit__|if|1'])
         takes += [[sites['Configurator.__exit__|if|1'], 0]]
     return {'op': 'exec', 'entry': entry, 'depth': obs['before'], 'raises': raises, 'takes': takes, 'iters': iters}
 
@@ -714,7 +732,7 @@ def scope_model_line(case, obs, sites):
 def scope_compare(case, obs, mo, sites):
     """None when `exec` under the observed oracle visits the same hooks at the same depths and ends the same way"""
     entry, labels, _, _ = SCOPES[case['scenario']]
-    hooked = {sites[n] for n in labels.values()}
+    hooked = {sites[n] for n in labels.values() if n in sites}
     want = [[sites[labels[l]], d, bad] for l, d, bad in obs['visits']]
     got = [v for v in mo.get('trace', []) if v[0] in hooked]
     m_raised = mo.get('outcome') == 'raised'
@@ -757,6 +775,8 @@ RESP_WHILE = 'CallbackMethodsMixin._process_response_callbacks|while|1'
 
 def pipeline_skeleton_query(spec, node, top, depth_before, sites):
     """(exec query, expected hooked trace) for one request of an observation tree"""
+    need(sites, list(PIPE_SITES.values()) + [RESP_WHILE, FIN_WHILE, 'Router.invoke_request|and|1',
+                                            'Router.invoke_request|if|2', 'Router.finish_request|if|1'])
     visits = []
     for e in node['own']:
         if e[0] == 'chain':
@@ -902,35 +922,66 @@ def eval_cases(ctx, cases, use_model=True):
     mism, viol, agree = [], [], 0
     # first model pass: pipeline trees and scope execs
     lines, owner = [], []
+    bad_case = set()
+    missing = {}        # label -> number of cases whose skeleton comparison could not be made
+
+    def site_break(i, e):
+        bad_case.add(i)
+        for l in e.labels:
+            missing[l] = missing.get(l, 0) + 1
+
     for i, (c, o) in enumerate(zip(cases, obs)):
-        if o is None:
+        if o is None or not have_model:
             continue
         if c.get('kind') == 'scope':
-            lines.append(scope_model_line(c, o, sites)); owner.append((i, 'scope', None))
+            try:
+                lines.append(scope_model_line(c, o, sites)); owner.append((i, 'scope', None))
+            except SitesMissing as e:
+                site_break(i, e)
         else:
             lines.append(model_line(c)); owner.append((i, 'tree', None))
-            for spec, node, top, d0 in tree_nodes(c['req'], o, True, int(c.get('base', 0))):
-                q, want = pipeline_skeleton_query(spec, node, top, d0, sites)
-                lines.append(q); owner.append((i, 'skel', (node, want)))
-    replies = ctx.run_model(lines) if (have_model and lines) else [None] * len(lines)
-    bad_case = set()
+            try:
+                qs = []
+                for spec, node, top, d0 in tree_nodes(c['req'], o, True, int(c.get('base', 0))):
+                    q, want = pipeline_skeleton_query(spec, node, top, d0, sites)
+                    qs.append((q, (node, want)))
+                for q, extra in qs:
+                    lines.append(q); owner.append((i, 'skel', extra))
+            except SitesMissing as e:
+                site_break(i, e)
+    replies = [None] * len(lines)
+    if have_model and lines:
+        try:
+            replies = ctx.run_model(lines)
+        except Exception as e:        # a driver that dies is a correspondence break, not a reason to stop looking at the code
+            mism.append({'kind': 'driver-failed', 'case': None, 'impl': None, 'model': {'error': str(e)[:500]}})
+            bad_case.update(i for i, _w, _x in owner)
+    if missing:
+        ex = next(cases[i] for i in sorted(bad_case) if obs[i] is not None)
+        mism.append({'kind': 'skeleton-site-missing', 'case': ex, 'impl': None,
+                     'model': {'missing_site_labels': sorted(missing), 'cases_affected': dict(missing),
+                               'note': 'the regenerated skeleton has no call site with these labels; exec comparison skipped for the affected cases, the property is still evaluated on the implementation'}})
     for (i, what, extra), mo in zip(owner, replies):
         c, o = cases[i], obs[i]
         if mo is None:
             continue
-        if what == 'scope':
-            d = scope_compare(c, o, mo, sites)
-            if d:
-                mism.append(d); bad_case.add(i)
-        elif what == 'tree':
-            if mo.get('tree') != o:
-                mism.append({'case': c, 'impl': o, 'model': mo}); bad_case.add(i)
-        else:
-            node, want = extra
-            d = pipeline_skeleton_compare(node, mo, want, sites)
-            if d:
-                mism.append({'case': c, 'impl': {'own': node['own'], 'out': node['out'], 'depth': node['depth']},
-                             'model': dict(d, stream='skeleton exec of Router.__call__/invoke_subrequest')}); bad_case.add(i)
+        try:
+            if what == 'scope':
+                d = scope_compare(c, o, mo, sites)
+                if d:
+                    mism.append(d); bad_case.add(i)
+            elif what == 'tree':
+                if mo.get('tree') != o:
+                    mism.append({'case': c, 'impl': o, 'model': mo}); bad_case.add(i)
+            else:
+                node, want = extra
+                d = pipeline_skeleton_compare(node, mo, want, sites)
+                if d:
+                    mism.append({'case': c, 'impl': {'own': node['own'], 'out': node['out'], 'depth': node['depth']},
+                                 'model': dict(d, stream='skeleton exec of Router.__call__/invoke_subrequest')}); bad_case.add(i)
+        except Exception as e:
+            mism.append({'kind': 'comparison-failed', 'case': c, 'impl': None, 'model': {'error': '%s: %s' % (type(e).__name__, e)}})
+            bad_case.add(i)
     for i, (c, o) in enumerate(zip(cases, obs)):
         if o is None:
             continue
